@@ -31,10 +31,16 @@ def fn_list():
 SPECIAL = os.path.join(ROOT, "build", "seq", "special")
 SPECIAL_SRC = [os.path.join(ROOT, "engine", "seq", "special.c")]
 SPECIAL_PROPS = {"C01", "C02", "C03", "C04", "C05", "C06", "C08"}
+FMTGRID = os.path.join(ROOT, "build", "seq", "c11")           # the C11 directive-grammar enumerator, used by C01 as a memory-safety sweep
+FMTGRID_SRC = [os.path.join(ROOT, "engine", "seq", "c11.c")]
+FMTGUARD = os.path.join(ROOT, "build", "seq", "c09")          # the C09 format-language enumerator, used by C02 with the format itself guard-placed
+FMTGUARD_SRC = [os.path.join(ROOT, "engine", "seq", "c09.c")]
 
 
 def build_harness():
     common.cc(SPECIAL, SPECIAL_SRC, ["-O1", "-g", "-w", "-ldl"])
+    common.cc(FMTGRID, FMTGRID_SRC, ["-O1", "-g", "-w", "-Wl,--no-as-needed", "-ldl", "-lm"])
+    common.cc(FMTGUARD, FMTGUARD_SRC, ["-O1", "-g", "-w", "-ldl"])
     common.cc(CAT, SRC[:3], ["-O1", "-g", "-Wall", "-Wno-unused-function", "-pthread"], deps=SRC[3:])
     # -ldl must follow the sources for old linkers; gcc >= 2.34 has dlopen in libc anyway
     return CAT
@@ -65,6 +71,13 @@ def run(pid, tier, deadline_s):
             for loc in ("C", "C.UTF-8"):
                 for grp in (("os",) if pid == "C06" else ("printf", "wprintf", "unicode", "conv", "os")):
                     tasks.append(("special:" + grp, v, loc, 0, 1))
+    if pid == "C02":
+        for fam in ("narrow", "wide"):
+            for alpha, L in ((("%ndslh5.x", 4), ("%n[]^s*", 5)) if tier == "quick" else (("%ndslh5.x", 5), ("%n[]^s*d", 6))):
+                for sh in range(4): tasks.append((f"fmtguard:{fam}:{L}:{alpha}", "prod", "C", sh, 4))
+    if pid == "C01":
+        for grp in ("int", "float", "str", "multi"):
+            for sh in range(4): tasks.append(("fmtgrid:" + grp, "prod", "C.UTF-8", sh, 4))
 
     def one(t):
         name, v, loc, sh, nsh = t
@@ -74,7 +87,12 @@ def run(pid, tier, deadline_s):
             return t, None
         env = dict(os.environ, CAT_LIB=libs[v])
         try:
-            if name.startswith("special:"):
+            if name.startswith("fmtguard:"):
+                _, fam, L, alpha = name.split(":", 3)
+                r = subprocess.run([FMTGUARD, fam, L, alpha, str(sh), str(nsh)], capture_output=True, text=True, errors="replace", env=dict(env, C09_PROP=pid), timeout=left)
+            elif name.startswith("fmtgrid:"):
+                r = subprocess.run([FMTGRID, name[8:], tier, str(sh), str(nsh)], capture_output=True, text=True, errors="replace", env=dict(env, C11_PROP=pid), timeout=left)
+            elif name.startswith("special:"):
                 r = subprocess.run([SPECIAL, pid, v, loc, name[8:]], capture_output=True, text=True, env=env, timeout=left)
             else:
                 r = subprocess.run([CAT, "run", pid, tier, v, loc, name, str(sh), str(nsh)], capture_output=True,
@@ -102,12 +120,20 @@ def run(pid, tier, deadline_s):
                 continue
             j = json.loads(ln)
             if j["t"] == "viol":
-                if name.startswith("special:"):
+                if name.startswith("fmtguard:"):
+                    sig = j["sig"]; j["case"] = "fmtguard " + j["case"]
+                elif name.startswith("fmtgrid:"):
+                    sig = j["sig"]; j["case"] = "fmtgrid " + j["case"]
+                elif name.startswith("special:"):
                     sig = j["sig"]; j["case"] = "special " + j["case"]
                 else:
                     sig = j["sig"] + ("" if v == "prod" else "|" + v)
                 e = viol.setdefault(sig, [0, j["case"], v, loc])
                 e[0] += j["n"]
+            elif j["t"] == "stat" and name.startswith("fmtguard:"):
+                evals += j["calls"]; nontriv += j["calls"]; pf = per_fn.setdefault("printf/scanf-family format operand", [0, 0]); pf[0] += j["calls"]; pf[1] += j["calls"]
+            elif j["t"] == "stat" and name.startswith("fmtgrid:"):
+                evals += j["calls"]; nontriv += j["calls"]; pf = per_fn.setdefault("printf-family directive grid", [0, 0]); pf[0] += j["calls"]; pf[1] += j["calls"]
             elif j["t"] == "stat":
                 evals += j["evaluations"]; nontriv += j["nontrivial"]; outcomes = max(outcomes, j.get("outcome_classes", 0))
                 pf = per_fn.setdefault(name, [0, 0]); pf[0] += j["evaluations"]; pf[1] += j["nontrivial"]
@@ -145,7 +171,11 @@ def replay_kv(kv, quiet=False):
     v = kv.get("variant", "prod")
     lib = vbuild.build(v)
     env = dict(os.environ, CAT_LIB=lib)
-    if kv["case"].startswith("special "):
+    if kv["case"].startswith("fmtguard "):
+        r = subprocess.run([FMTGUARD, "replay"] + kv["case"].split()[1:] + ["x"], capture_output=True, text=True, errors="replace", env=dict(env, C09_PROP=kv["property"]))
+    elif kv["case"].startswith("fmtgrid "):
+        r = subprocess.run([FMTGRID, "replay"] + kv["case"].split(" ", 7)[1:], capture_output=True, text=True, errors="replace", env=dict(env, C11_PROP=kv["property"]))
+    elif kv["case"].startswith("special "):
         r = subprocess.run([SPECIAL, "replay", kv["property"], v, kv.get("locale", "C")] + kv["case"].split()[1:], capture_output=True, text=True, env=env)
     else:
         r = subprocess.run([CAT, "replay", kv["property"], v, kv.get("locale", "C"), kv["case"]], capture_output=True,
